@@ -115,4 +115,5 @@ func genMore(outDir string) {
 	genAccum(outDir)
 	genAuth(outDir)
 	genGamm(outDir)
+	genTwap(outDir)
 }
